@@ -1,57 +1,58 @@
 #!/venv/bin/python
-"""Regenerates /verif/MANIFEST.json from the table below and validates it against the schema."""
+"""Regenerates /verif/MANIFEST.json from the MANIFEST dicts of vlib/checks/c*.py and validates it."""
 
+import ast
+import glob
 import json
 import os
 import subprocess
 
 HERE = os.path.dirname(os.path.dirname(os.path.abspath(__file__)))
 
-# id -> (engine, level, technique, level text, level note, design ref)
-CHECKS = {
-    "C17": ("E7-codec", "exploration",
-            "runtime round-trip monitors on the real encoders/decoders over generated boundary and random message values (incl. real UDP shm server and real zmq frames)",
-            "Every message value generated (boundary grid of sizes/strings, then seeded random) is pushed through the repository's own ser/deser pair and compared; values inside the domain must not raise, values outside must raise or come back unchanged. Held = on all values generated, not on the whole domain.",
-            "Trusts pickle/orjson/pydantic/libzmq themselves; inside-domain for sizes is 0..2^48; datagram size limit (1024 B) is transport, not encoding.",
-            "DESIGN.md section 3 C17"),
-    "C19": ("E9-builder", "exploration",
-            "runtime oracle on generated builder programs: independent well-formedness classifier + value-binding model + persistence digests re-checked after every builder call",
-            "Each generated builder program (exec-synthesised callables, with_values, with_node, with_edge with existing/dangling endpoints) runs on the real builders; build() must return an Either, reject exactly what the independent classifier says dangles or conflicts, and an accepted job is re-checked edge by edge; earlier builders and jobs are digest-checked for mutation after every call.",
-            "Annotations restricted to builtins/absent; Any-vs-concrete pairs accepted either way; compatibility = issubclass.",
-            "DESIGN.md section 3 C19"),
-}
+# properties not claimed: id -> reason
+NOT_CLAIMED = {}
+DEFAULT_REASON = ("check not built yet in this round (runtime-monitoring check planned in DESIGN.md section 3); "
+                  "not claimed until it has been run clean on the unchanged tree")
+HOOK_COMMITS = []
 
-NOT_YET = {}
 
-ENGINES = [
-    {"name": "E7-codec", "path": "vlib/checks/c17.py", "serves_properties": ["C17"],
-     "kind_free_text": "generated message values through the real encoders, offline comparison"},
-    {"name": "E9-builder", "path": "vlib/checks/c19.py", "serves_properties": ["C19"],
-     "kind_free_text": "generated builder programs against an independent well-formedness oracle"},
-]
+def module_meta(path):
+    tree = ast.parse(open(path).read())
+    out = {}
+    for node in tree.body:
+        if isinstance(node, ast.Assign) and len(node.targets) == 1 and isinstance(node.targets[0], ast.Name):
+            if node.targets[0].id in ("ID", "LEVEL", "MANIFEST"):
+                out[node.targets[0].id] = ast.literal_eval(node.value)
+    return out
 
 
 def main():
     props = [json.loads(l)["id"] for l in open(os.path.join(HERE, "properties.jsonl"))]
-    checks = []
+    metas = {}
+    for p in sorted(glob.glob(os.path.join(HERE, "vlib", "checks", "c[0-9]*.py"))):
+        m = module_meta(p)
+        if "MANIFEST" in m and m.get("ID") not in NOT_CLAIMED:
+            metas[m["ID"]] = (m, os.path.relpath(p, HERE))
+    checks, engines = [], {}
     for pid in props:
-        if pid not in CHECKS:
+        if pid not in metas:
             continue
-        engine, level, technique, text, note, ref = CHECKS[pid]
+        m, path = metas[pid]
+        d = m["MANIFEST"]
         checks.append({
             "property_id": pid,
             "quick_cmd": f"./vcheck {pid} --tier quick",
             "thorough_cmd": f"./vcheck {pid} --tier thorough",
             "evidence_file": f"evidence/{pid}.json",
             "replay_cmd_template": f"./vcheck {pid} --replay {{path}}",
-            "engine": engine,
-            "level_claimed": {"category": level, "text": text, "design_ref": ref},
-            "level_note": note,
-            "technique": technique,
+            "engine": d["engine"],
+            "level_claimed": {"category": m["LEVEL"], "text": d["text"], "design_ref": f"DESIGN.md section 3 {pid}"},
+            "level_note": d["note"],
+            "technique": d["technique"],
         })
-    na = [{"property_id": pid, "reason": NOT_YET.get(pid, "check not built yet in this round (runtime-monitoring check planned in DESIGN.md section 3); not claimed until it has been run clean on the unchanged tree")}
-          for pid in props if pid not in CHECKS]
-    hooks_commits = []
+        e = engines.setdefault(d["engine"], {"name": d["engine"], "path": d.get("engine_path", path), "serves_properties": [], "kind_free_text": d["kind"]})
+        e["serves_properties"].append(pid)
+    na = [{"property_id": pid, "reason": NOT_CLAIMED.get(pid, DEFAULT_REASON)} for pid in props if pid not in metas]
     m = {
         "version": 1,
         "setup_cmd": "/venv/bin/pip install -q --no-index --find-links /opt/veriftools/wheels --target /verif/.deps icontract || true",
@@ -59,10 +60,10 @@ def main():
             "guard": "EARTHKIT_WORKFLOWS_VERIF",
             "enable": "no in-repo hooks: every seam is reached by harness-level patching; checks run /venv/bin/python with PYTHONPATH=/repo/src:/verif so the working tree is what executes (nothing to build)",
             "baseline_off_cmd": "cd /repo && /venv/bin/python -m pytest -ra -q -p no:cacheprovider --timeout=900 --continue-on-collection-errors",
-            "source_commits": hooks_commits,
+            "source_commits": HOOK_COMMITS,
             "add_only": True,
         },
-        "engines": ENGINES,
+        "engines": list(engines.values()),
         "checks": checks,
         "notes": "Technique family: runtime monitoring. See DESIGN.md. known_findings.json lists recorded/fixed genuine defects; seeded/ holds independently written property-breaking changes and which check catches them.",
         "not_applicable": na,
@@ -70,7 +71,7 @@ def main():
     path = os.path.join(HERE, "MANIFEST.json")
     with open(path, "w") as f:
         json.dump(m, f, indent=1)
-    r = subprocess.run(["python3-vt", "-c", "import json,jsonschema,sys; jsonschema.validate(json.load(open(sys.argv[1])), json.load(open('/root/.vp/MANIFEST.schema.json'))); print('manifest valid')", path])
+    r = subprocess.run(["python3-vt", "-c", "import json,jsonschema,sys; jsonschema.validate(json.load(open(sys.argv[1])), json.load(open('/root/.vp/MANIFEST.schema.json'))); print('manifest valid:', len(json.load(open(sys.argv[1]))['checks']), 'checks')", path])
     return r.returncode
 
 
